@@ -17,14 +17,14 @@ Proof. reflexivity. Qed.
 Lemma cn_app {A} c (a b : list (N * A)) : cn c (a ++ b) = (cn c a + cn c b)%nat.
 Proof. unfold cn. rewrite filter_app, app_length. reflexivity. Qed.
 
-Lemma cn_cons {A} c (x : N * A) l : cn c (x :: l) = ((if fst x =? c then 1 else 0) + cn c l)%nat.
+Lemma cn_cons {A} c (x : N * A) l : cn c (x :: l) = ((if (fst x =? c)%N then 1 else 0) + cn c l)%nat.
 Proof. unfold cn. cbn [filter]. destruct (fst x =? c); reflexivity. Qed.
 
-Lemma ce_cons c (x : N * N) l : ce c (x :: l) = ((if snd x =? c then 1 else 0) + ce c l)%nat.
+Lemma ce_cons c (x : N * N) l : ce c (x :: l) = ((if (snd x =? c)%N then 1 else 0) + ce c l)%nat.
 Proof. unfold ce. cbn [filter]. destruct (snd x =? c); reflexivity. Qed.
 
 Lemma cn_remove_nth {A} c : forall k (l : list (N * A)) x, nth_error l k = Some x ->
-  (cn c (remove_nth k l) + (if fst x =? c then 1 else 0))%nat = cn c l.
+  (cn c (remove_nth k l) + (if (fst x =? c)%N then 1 else 0))%nat = cn c l.
 Proof.
   induction k as [|k IH]; intros [|y l] x E; try discriminate.
   - cbn in E. inversion E; subst. cbn [remove_nth]. rewrite cn_cons. lia.
@@ -40,7 +40,7 @@ Qed.
 
 Lemma take_first_some c' : forall l m r, take_first c' l = (Some m, r) ->
   In (c', m) l /\ (forall y, In y r -> In y l)
-  /\ forall c, (cn c r + (if c' =? c then 1 else 0))%nat = cn c l.
+  /\ forall c, (cn c r + (if (c' =? c)%N then 1 else 0))%nat = cn c l.
 Proof.
   induction l as [|x l IH]; intros m r E; [discriminate|].
   cbn [take_first] in E. destruct (fst x =? c') eqn:F.
@@ -96,7 +96,7 @@ Qed.
 
 (* with unique ids, removing id takes out exactly the one entry it names *)
 Lemma ce_remove_id_found c id es c' : NoDup (map fst es) -> lookup id es = Some c' ->
-  (ce c (remove_id id es) + (if c' =? c then 1 else 0))%nat = ce c es.
+  (ce c (remove_id id es) + (if (c' =? c)%N then 1 else 0))%nat = ce c es.
 Proof.
   induction es as [|x es IH]; intros ND L; [discriminate|].
   cbn [map] in ND. inversion ND as [|? ? NI ND']; subst.
@@ -306,7 +306,7 @@ Proof.
         -- rewrite <- app_assoc in H. apply in_app_or in H. destruct H as [H|H].
            ++ apply in_or_app. right. apply in_or_app. left. exact H.
            ++ destruct H as [H|H].
-              ** subst. apply in_or_app. left. exact (nth_error_In _ _ NE).
+              ** inversion H; subst. apply in_or_app. left. exact (nth_error_In _ _ NE).
               ** apply in_or_app. right. apply in_or_app. right. exact H.
       * intro c'. specialize (IE c'). unfold tok in *. cbn [g_st g_recvd ps_entries ps_inflight ps_bufs].
         pose proof (cn_remove_nth c' k _ _ NE) as R. cbn [fst] in R.
@@ -365,7 +365,7 @@ Proof.
   - congruence.
   - subst x. exfalso. apply NI. apply in_map_iff. exists (c, id'). split; [reflexivity|exact O'].
   - subst x. exfalso. apply NI. apply in_map_iff. exists (c, id). split; [reflexivity|exact O].
-  - exact (IHl ND' O O').
+  - exact (IHl O O' ND').
 Qed.
 
 (* and conversely a response completed for id can only show up on id's channel *)
@@ -381,7 +381,7 @@ Proof.
   - congruence.
   - subst x. exfalso. apply NI. apply in_map_iff. exists (c', id). split; [reflexivity|exact O'].
   - subst x. exfalso. apply NI. apply in_map_iff. exists (c, id). split; [reflexivity|exact O].
-  - exact (IHl ND' O O').
+  - exact (IHl O' O ND').
 Qed.
 
 (* a caller receives at most one value *)
@@ -497,9 +497,12 @@ Proof.
   intros EI U1 U2 CP. unfold store.
   assert (C0 : cap c =? 0 = false) by (apply N.eqb_neq; lia).
   destruct (ps_closed (g_st g)) eqn:CL; cbn [trun texec]; rewrite CL, ?U1, U2, C0; cbn [negb orb].
-  - destruct (send cap 0 (store_closed c (g_st g))) as [s2 d] eqn:S. cbn [g_st]. rewrite S.
+  - assert (SC : store_closed c (g_st g) =
+                 PState (ps_entries (g_st g)) (ps_closed (g_st g)) (ps_close_err (g_st g))
+                        [(c, Msg None [] (ps_close_err (g_st g)))] (ps_bufs (g_st g))).
+    { unfold store_closed. rewrite EI. reflexivity. }
+    destruct (send cap 0 (store_closed c (g_st g))) as [s2 d] eqn:S. cbn [g_st]. rewrite S.
     eexists. split; [reflexivity|]. cbn [g_st].
-    unfold flush. cbn [store_closed ps_inflight]. rewrite EI. cbn [app length send_all].
-    unfold store_closed in S. rewrite EI in S. cbn [app] in S. rewrite S. reflexivity.
+    unfold flush. rewrite SC in *. cbn [ps_inflight length send_all]. rewrite S. reflexivity.
   - eexists. split; reflexivity.
 Qed.
